@@ -1,7 +1,7 @@
 (* Properties_C08.v -- C08: nothing stale behind the terminator
    Only theorem statements, each closed by [exact <lemma>], with Print Assumptions beneath. *)
 From Coq Require Import List ZArith Lia Bool.
-From SC Require Import Base Wp Cfg Comb CombProofs CopySpec ModStr ModMem ModExt ProofsStr ProofsMem SpecStr SpecMem SpecExt SpecExt2 PropStr FnProps PropDefs.
+From SC Require Import Base Wp Cfg Comb CombProofs CopySpec ModStr ModMem ModExt ProofsStr ProofsMem SpecStr SpecMem SpecExt SpecExt2 PropStr FnProps PropDefs ModExt2 SpecExt4.
 From SC.Gen Require Import Consts.
 Import ListNotations.
 Local Open Scope Z_scope.
@@ -39,6 +39,13 @@ Theorem C08_strset_s : forall c d dmax value m, d <> 0 -> 1 <= dmax <= rmax_str 
   wp (strset_s c d dmax value BOS_UNKNOWN) m (set_post c d dmax dmax value m).
 Proof. exact strset_s_spec. Qed.
 Print Assumptions C08_strset_s.
+
+(* wcsset_s (wide): the first t elements (t = length of the string inside the window) hold the fill value, with null-slack the
+   rest of dest up to dmax elements is zero, every byte outside that is unchanged *)
+Theorem C08_wcsset_s : forall c d dmax value m, wf_cfg c -> d <> 0 -> 1 <= dmax <= rmax_wstr c -> wc_signed value <= UNICODE_MAX ->
+  wp (wcsset_s c d dmax value BOS_UNKNOWN) m (wset_post c (wchar_w c) d dmax (value mod 4294967296) m).
+Proof. exact wcsset_s_spec. Qed.
+Print Assumptions C08_wcsset_s.
 Theorem C08_strnset_s : forall c d dmax value n m, d <> 0 -> 1 <= dmax <= rmax_str c -> 0 <= value <= 255 -> 0 <= n <= dmax ->
   wp (strnset_s c d dmax value n BOS_UNKNOWN) m (set_post c d dmax n value m).
 Proof. exact strnset_s_spec. Qed.
